@@ -215,3 +215,8 @@ package eval
 //@     invariant [range] (and (<= -1 $rangeindex) (< $rangeindex (len $B)))
 //@     invariant [none-before] (forall ((j Int)) (! (=> (and (<= (off $B) j) (<= j (+ (off $B) $rangeindex))) (not (mapin $set (select (arr $B) j)))) :pattern ((select (arr $B) j))))
 //@     decreases (- (len $B) $rangeindex)
+
+//@ lemma overlap-symmetric C17
+//@   (declare-const a (Array Int Int)) (declare-const b (Array Int Int))
+//@   (declare-const ao Int) (declare-const an Int) (declare-const bo Int) (declare-const bn Int)
+//@   (assert (not (= (overlaps a ao an b bo bn) (overlaps b bo bn a ao an))))
